@@ -179,6 +179,7 @@ prop(
 prop(
     id="C20",
     stages=[dict(name="c20", pkg="c06", test="TestC20", access=[WORKERS_ACCESS], timeout_quick=300, timeout_thorough=3000),
+            dict(name="c20interrupted", pkg="c06", test="TestC20Interrupted", access=[WORKERS_ACCESS, RUN_ACCESS], timeout_quick=300, timeout_thorough=3000),
             dict(name="c20file", pkg="c06", test="TestC20File", access=[WORKERS_ACCESS, RUN_ACCESS], timeout_quick=300, timeout_thorough=3000)],
     rule="0-7 generated components (setup and iteration bodies of marks, cleanups, Fail, FailNow, panics) combined by the real f1.CombineScenarios and run through "
          "ActiveScenario.Setup/Run for 1-3 iterations: event log, setup-failed flag and per-iteration outcomes equal the model's exactly; handle identity checked by pointer; "
@@ -405,3 +406,7 @@ _ACROSS = {
 }
 for _pid, _txt in _ACROSS.items():
     PROPS[_pid]["rule"] = PROPS[_pid]["rule"] + "; across units: " + _txt
+
+# the runner as Run.Do uses it (progress reporter): runs cancelled at every point, setup included,
+# leave no goroutine behind - the run-level stages of C05 also decide that part of C18
+PROPS["C18"]["stages"] = PROPS["C18"]["stages"] + [st for st in PROPS["C05"]["stages"] if st["name"] in ("c05runs", "c05precancel")]
